@@ -11,6 +11,8 @@ import numpy as np
 from vlib import core
 from vlib.core import q, qmat, qvec, nat, coqbool, coqlist
 
+IMPORTS_GEN = ("From Coq Require Import List QArith.\nFrom RV Require Import base.Num base.LA model.Reservoir run.RunC01 run.RunGenC01.\n"
+               "Import ListNotations.\nOpen Scope Q_scope.")
 IMPORTS = ("From Coq Require Import List QArith.\nFrom RV Require Import base.Num base.LA model.Reservoir run.RunC01.\n"
            "Import ListNotations.\nOpen Scope Q_scope.")
 TRUSTED = [
@@ -393,6 +395,12 @@ def strip(o):
     return {k: v for k, v in o.items() if not k.endswith("_fn")}
 
 
+def pregen(ctx):
+    """tie (T): re-translate nodes/reservoirs/base.py + utils/random.py (noise) of the tree under test into coq/gen/Gen_reservoir.v"""
+    from vlib import gen
+    return gen.pregen_units(["reservoir"])
+
+
 def correspondence(ctx):
     rng = ctx.rng("corr")
     N = ctx.n(160, 1600)
@@ -438,7 +446,15 @@ def correspondence(ctx):
             keep.append({"scenario": jsonable(c), "impl_error": repr(e)})
         count("init:" + ("accepted" if o is not None else "rejected"))
     failing, err = core.run_cases(ctx.pid, IMPORTS, terms, chunk=60)
-    return {"evaluations": len(terms), "distinct_nontrivial": len(nt),
+    # the kernels GENERATED from the current source (tie T), executed at Q on the same scenarios against the same observations
+    gterms = [(i, t.replace("chk_res ", "chk_gen_res ", 1)) for i, t in enumerate(terms) if t.startswith("chk_res ")]
+    gfail, gerr = core.run_cases(ctx.pid + "_gen", IMPORTS_GEN, [t for _, t in gterms], chunk=60)
+    dist["generated-kernel runs"] = len(gterms)
+    dist["generated-kernel disagreements"] = len(gfail)
+    if gerr:
+        err = (err or "") + "generated kernels: " + gerr
+    failing = sorted(set(failing) | {gterms[j][0] for j in gfail})
+    return {"evaluations": len(terms) + len(gterms), "distinct_nontrivial": len(nt),
             "rule": "seeded Reservoir scenarios (units 1-6, in_dim 1-3, T<=10; both equations; scalar/per-unit lr in [0,1]; W dense/csr/csc or "
                     "seeded initialisers read back; bias split (column or 1-D vector)/in-Win/off; per-unit lr as ndarray or list; exact and named activations; feedback stand-alone or inside a Model; "
                     "start = current state after a warm-up run or from_state; run() or step-wise call(); lr / activation reassigned by attribute assignment on the initialised node between the warm-up and the checked run) plus Win/bias shape conventions incl. "
